@@ -120,6 +120,50 @@ pub fn check_case(rep: &Report, case: &Case, local: &mut Local, worker_counts: &
             seen.push((label, got));
         }
     }
+    // a MemSource of which the first block was already consumed, and one that is exhausted: the
+    // stream describes what the encoder consumed, not what the source once held
+    if inp.ch <= 2 && inp.full >= 1 {
+        for (name, pre) in [("partly_consumed", inp.bs as usize), ("exhausted", inp.len())] {
+            for mt in [false, true] {
+                let label = format!("{}{}/memsource_{name}", if mt { "mt" } else { "st" }, if mt { "2" } else { "" });
+                let rest = &samples[(pre * inp.ch as usize).min(samples.len())..];
+                let want2: Facts = (inp.rate, inp.ch as u32, inp.bps as u32, (rest.len() / inp.ch as usize) as u64, md5ref(rest, inp.bps as usize));
+                let mut c = case.clone();
+                c.cfg.workers = 2;
+                let r = crate::panicx::catch(|| -> Result<Facts, String> {
+                    use flacenc::source::Source;
+                    let cfg = subject::verified(&c.cfg, mt, inp.bs as usize).map_err(|e| e.describe())?;
+                    let mut src = flacenc::source::MemSource::from_samples(&samples, inp.ch as usize, inp.bps as usize, inp.rate as usize);
+                    // consume `pre` inter-channel samples through a scratch buffer, block by block
+                    let mut scratch = flacenc::source::FrameBuf::with_size(inp.ch as usize, inp.bs as usize).map_err(|e| format!("{e:?}"))?;
+                    let mut left = pre;
+                    while left > 0 {
+                        let n = src.read_samples(left.min(inp.bs as usize), &mut scratch).map_err(|e| format!("{e:?}"))?;
+                        if n == 0 {
+                            break;
+                        }
+                        left -= n.min(left);
+                    }
+                    let s = flacenc::encode_with_fixed_block_size(&cfg, &mut src, inp.bs as usize).map_err(|e| format!("{e:?}"))?;
+                    let si = s.stream_info();
+                    Ok((si.sample_rate() as u32, si.channels() as u32, si.bits_per_sample() as u32, si.total_samples() as u64, *si.md5_digest()))
+                });
+                match r {
+                    Ok(Ok(got)) => {
+                        if got.3 != want2.3 {
+                            rep.violation_x(mt, &format!("total_samples|memsource_{name}"), &format!("{label}: STREAMINFO total samples {} but the encoder consumed {} from the source", got.3, want2.3), c.json(), c.weight());
+                        } else if got != want2 {
+                            rep.violation_x(mt, &format!("md5|memsource_{name}"), &format!("{label}: STREAMINFO {:?} differs from {:?}", got, want2), c.json(), c.weight());
+                        } else {
+                            local.outcome("ok_reused_memsource");
+                        }
+                    }
+                    Ok(Err(e)) => rep.violation_x(mt, "encode_fail|memsource_reuse", &format!("{label}: {e}"), c.json(), c.weight()),
+                    Err(p) => rep.violation_x(mt, &format!("encode_fail|{}", p.class()), &format!("{label}: {}", p.describe()), c.json(), c.weight()),
+                }
+            }
+        }
+    }
     if let Some((l0, f0)) = seen.first() {
         for (l, f) in &seen[1..] {
             if f != f0 {
